@@ -103,15 +103,17 @@ prop('C19',
      level='other',
      units=['bycycle.group.utils.check_kwargs_shape', 'bycycle.burst.cycle.detect_bursts_cycles',
             'bycycle.burst.amp.detect_bursts_amp', F + 'burst.compute_burst_fraction', F + 'burst.compute_amp_consistency',
-            F + 'burst.compute_period_consistency', F + 'shape.compute_shape_features', CF],
-     jobs=['kwargs_shape', 'detect_bursts_cycles', 'detect_bursts_amp'],
+            F + 'burst.compute_period_consistency', F + 'shape.compute_shape_features', CF,
+            'bycycle.objs.fit.Bycycle.fit', 'bycycle.objs.fit.Bycycle.plot', 'bycycle.burst.utils.check_min_burst_cycles'],
+     jobs=['kwargs_shape', 'detect_bursts_cycles', 'detect_bursts_amp', 'objects'],
      unit_jobs={'bycycle.group.utils.check_kwargs_shape': ['kwargs_shape'],
                 'bycycle.burst.cycle.detect_bursts_cycles': ['detect_bursts_cycles'],
                 'bycycle.burst.amp.detect_bursts_amp': ['detect_bursts_amp']},
      explanation='Proved ("ValueError iff"): the shape/axis/option-list decision table of check_kwargs_shape for all extents; '
                  'threshold range checks, negative min_n_cycles, reversed / negative amplitude thresholds, negative fs, unknown '
-                 'centre / burst method / direction, first_extrema override. Not yet under contract: dimensionality guards of '
-                 'the objects, plot-before-fit, axis / progress values of the group functions, first_extrema of find_extrema; '
+                 'centre / burst method / direction, first_extrema override, a 2-D / 3-D signal given to Bycycle.fit, plot before fit. '
+                 'Not yet under contract: the BycycleGroup dimensionality guard, axis / progress values of the group functions, '
+                 'first_extrema of find_extrema; '
                  'fs == 0 is rejected only by the external filter.')
 
 BU = 'bycycle.burst.utils.'
@@ -180,11 +182,18 @@ prop('C13', level='other', units=[], jobs=['epoch_df', 'group_epoched'],
      explanation='Bounded so far: epoch_df exhaustively on synthetic tables (boundaries on cycle ends, empty epochs); '
                  'compute_features_2d(axis=None) against flattened analysis + epoch_df, single option set and per-epoch lists.')
 
-prop('C14', level='other', units=[CF], jobs=['objects', 'group_2d', 'group_3d'],
-     explanation='Bounded so far: seeded operation sequences on Bycycle objects (fit / recompute_edges / load / threshold edits / '
-                 'attribute access) compared with compute_features, a fresh object and the functional edge recomputation; '
-                 'BycycleGroup mirrors. Deductive: compute_features has an empty frame (modifies = []), which is what makes the '
-                 'stored option dictionaries survive a fit.')
+OB = 'bycycle.objs.fit.'
+prop('C14', level='other',
+     units=[OB + 'Bycycle.fit', OB + 'BycycleBase.reduce_thresholds', OB + 'BycycleBase.__init__', CF],
+     jobs=['objects', 'group_2d', 'group_3d'],
+     explanation='Proved: Bycycle.fit hands exactly the stored settings (the very same option objects, positionally in the right '
+                 'order) and the given signal / fs / band to compute_features and stores its result, for every typed setting '
+                 'combination; the stored option dictionaries are not modified (compute_features has an empty frame); '
+                 'reduce_thresholds returns a new dictionary with every *threshold key lowered by r and all others equal; the '
+                 'constructor expands every shorthand name, keeps full names and min_n_cycles, and installs the documented defaults '
+                 '(2^11 presence patterns). Since fit reads nothing but the current settings and its arguments, "a fit yields what a '
+                 'fresh object with the current settings yields" follows for every history. Bounded: recompute_edges / load / '
+                 'attribute access / BycycleGroup mirrors (operation sequences, incl. refits with the same array object).')
 
 prop('C15', level='other',
      units=[CF, F + 'shape.compute_shape_features', F + 'shape.compute_durations', F + 'shape.compute_extrema_voltage',
